@@ -8,6 +8,7 @@ from .. import jmodel as J
 from ..cskel import Skel, strip_comments
 from ..odemodel import model, FILE
 from ..pymodel import package
+from ..valueflow import walk as walk_
 from ..valueflow import Flow, lower, match, V, show, simp
 
 EXPLANATION = (
@@ -99,6 +100,31 @@ def _r1(ctx, m):
     W = (FILE, m.func.lineno)
     counter, roles = csr_roles(m)
     if counter is None or not all(k in roles for k in ("rows", "cols", "vals")):
+        # Not the scan `for row: for col: if entry != sentinel`.  One other construction is decidable: the stored positions are
+        # taken from a SET filled during assembly.  Then the pattern is right only if every store into the Jacobian table has a
+        # sibling `<set>.add(<same index>)` in the same loops, under the same guards.
+        sets = {f.target for f in fl.facts if f.kind == "init" and simp(f.value) in (("call", ("global", "set"), (), ()), ("set", ()))}
+        used = {t for t in sets if any(("acc", t) in list(walk_(simp(f.value))) for f in fl.facts if f.kind == "append" and f.value)}
+        if len(used) == 1:
+            S = next(iter(used))
+            recs = [f for f in fl.facts if f.kind == "append" and f.target == S]
+            nsite = 0
+            for site in m.sites:
+                if site.array != "jacrhs" or site.kind not in ("loss", "gain", "mod", "heat", "cool"):
+                    continue
+                nsite += 1
+                idx = simp(site.fact.index)
+                sib = [r for r in recs if simp(r.value) == idx and tuple(l.id for l in r.loops) == tuple(l.id for l in site.fact.loops)
+                       and [(simp(g), p) for g, p in r.guards] == [(simp(g), p) for g, p in site.fact.guards]]
+                ctx.check(bool(sib), "R1", f"position record:{site.kind}@{site.fact.line}", (FILE, site.fact.line),
+                          f"the {site.kind} term's position is recorded in `{S}`" if sib else
+                          f"the {site.kind} site stores a term into the Jacobian table but does not record its position in `{S}`, from which the CSR arrays and NNZ are built: an "
+                          "entry that only this site contributes is assigned by the dense / odeint Jacobian and marked in the pattern file, but is not stored in the sparse matrix",
+                          expected=f"{S}.add(<the index written>) next to the store", found="no matching record")
+            if nsite:
+                ctx.unrec("R1", "csr-construction:from recorded positions", W, "the CSR arrays are built from a recorded position set; beyond the pairing above the construction is not decided") \
+                    if not ctx.by("VIOLATION") else None
+                return
         ctx.unrec("R1", "csr-construction", W, f"CSR construction not recognised (counter={counter}, lists={sorted(roles)})")
         return
     rows, cols, vals = roles["rows"], roles["cols"], roles["vals"]
